@@ -261,6 +261,54 @@ func c04Run(j *rt.Job, seed uint64, r *rt.Rec) {
 	if !x.judge("other-index-valid", msg, sig2, pk, "accept", true) {
 		return
 	}
+	// whole 32-byte blocks appended to / removed from a genuine signature (its size then names another height)
+	for _, k := range []int{1, 2, 3, 4, 5, 6, 8, 12, 26 - c.H, 27 - c.H} {
+		for _, fillv := range []int{0, 1} {
+			ext := append(mutS(), make([]byte, 32*k)...)
+			if fillv == 1 {
+				copy(ext[len(sig):], rng.Bytes(32*k))
+			}
+			if len(ext) > 2180+30*32 {
+				continue
+			}
+			if !x.judge("sig-blocks-appended", msg, ext, pk, "ref", true) {
+				return
+			}
+			// ... and with the descriptor height rewritten to the height the new size names (when that is even)
+			if (c.H+k)%2 == 0 {
+				p := mutP()
+				p[1] = p[1]&0xF0 | byte((c.H+k)/2)
+				if !x.judge("sig-blocks-appended-desc-rewritten", msg, ext, p, "ref", true) {
+					return
+				}
+			}
+		}
+	}
+	for _, k := range []int{1, 2, c.H - 2, c.H} {
+		if k <= 0 || k > c.H {
+			continue
+		}
+		cut := sig[:len(sig)-32*k]
+		if !x.judge("sig-blocks-removed", msg, cut, pk, "ref", true) {
+			return
+		}
+		if (c.H-k)%2 == 0 {
+			p := mutP()
+			p[1] = p[1]&0xF0 | byte((c.H-k)/2)
+			if !x.judge("sig-blocks-removed-desc-rewritten", msg, cut, p, "ref", true) {
+				return
+			}
+		}
+	}
+	// message with zero bytes appended up to / stripped back to a 32-byte boundary
+	for _, pad := range []int{1, 31 - len(msg)%32, 32 - len(msg)%32, 64} {
+		if pad <= 0 {
+			continue
+		}
+		if !x.judge("msg-zero-padded", append(append([]byte(nil), msg...), make([]byte, pad)...), sig, pk, "reject", true) {
+			return
+		}
+	}
 	// index field beyond the tree
 	for _, v := range []uint32{n, n + idx, 1 << 31, 0xFFFFFFFF, idx + n*2} {
 		s5 := mutS()
